@@ -261,7 +261,7 @@ def run(ctx):
     # Z measurements through a MeasureLayer: same outcomes, log2prob, state and rank as the direct measurement (every rank; the layer keeps using the state's own arrays)
     for it in range(int(80 * B)):
         n = rng.randint(1, 5)
-        do(ctx, 'layer', [n, rng.sample(range(n), rng.randint(1, n)), gen.rtableau(rng, ctx.model, n, r=rng.randint(0, n), depth=rng.choice([0, 1, None])), rng.randrange(10 ** 6)], nontrivial=('ly', it))
+        do(ctx, 'layer', [n, rng.sample(range(n), rng.randint(1, n)), gen.rtableau(rng, ctx.model, n, r=rng.randint(0, n), depth=rng.choice([0, 1, None])), rng.randrange(10 ** 6), rng.choice(['c', 'c', 'fortran', 'strided', 'int32', 'int8'])], nontrivial=('ly', it))
     # argument forms: a StabilizerState argument of every rank against a measured state of every rank
     for it in range(int(80 * B)):
         n = rng.randint(1, 5)
